@@ -22,7 +22,8 @@ LINES_CTX = ["plain", "with_decls", "with_blocks", "second_function", "nested_bl
              "wrapped_condition", "wrapped_assign_in_block", "else_chain", "nested_no_braces", "nested_no_braces_3",
              "no_braces_around_block", "no_brace_nest_at_end", "nest_then_else", "nested_in_block",
              "brace_at_eof_no_newline", "brace_then_line_comment", "brace_then_block_comment", "brace_then_blank", "brace_then_function"]
-COUNT_CTX = {"funcs": ["plain", "with_protos", "with_globals", "static_functions", "alternating_static"],
+COUNT_CTX = {"funcs": ["plain", "with_protos", "with_globals", "static_functions", "alternating_static", "comment_lines_before_brace",
+                       "comment_before_last_brace", "directive_before_last_brace", "multiline_signatures", "with_func_pointer_globals"],
              "params": ["definition", "prototype", "static_definition", "second_function", "header_prototype", "pointer_params",
                         "funcptr_param", "const_first", "multiline_definition", "array_params", "static_prototype"],
              "vars": ["plain", "with_array", "second_function", "with_pointers", "after_five_line_function", "static_locals",
@@ -370,9 +371,20 @@ def build(limit, ctx, n, ex):
         for i in range(n):
             if i:
                 b.add("\n")
+            if ctx == "with_func_pointer_globals" and i == 0:
+                b.add("static int\t(*g_hook)(int) = NULL;\nstatic int\tg_tab[2] = {1, 2};\n\n")
             b.add("static int\t" if (ctx == "static_functions" or (ctx == "alternating_static" and i % 2)) else "int\t")
             b.ident(4)
-            b.add("(void)\n{\n\treturn (%d);\n}\n" % i)
+            # what stands between the signature and the opening brace (comments and directives are accepted there)
+            between = ""
+            if ctx == "comment_lines_before_brace" or (ctx == "comment_before_last_brace" and i == n - 1):
+                between = "/* one */\n// two\n"
+            if ctx == "directive_before_last_brace" and i == n - 1:
+                between = "#define LOCAL 1\n"
+            if ctx == "multiline_signatures":
+                b.add("(int a,\n\tint b)\n" + "{\n\treturn (a + b + %d);\n}\n" % i)
+                continue
+            b.add("(void)\n" + between + "{\n\treturn (%d);\n}\n" % i)
         return name, b.items, [("TOO_MANY_FUNCS", None, n > 5)], None
     if limit == "params":
         def plist():
